@@ -1343,7 +1343,7 @@ fn op_mjs(ctx: &mut Ctx, op: &str, it: &mut std::str::SplitWhitespace) -> Option
                 // node with s splits by less than wmax + s/2 units, so a part deviates from
                 // total/parts by less than max_iter*wmax + S/2 units, S = the largest sum of
                 // num_splits along a root-to-leaf path of the scheme. Within
-                //     2*|parts*W - total| < parts*(2*(max_iter+1)*wmax + S + 1)      for EVERY part
+                //     2*|parts*W - total| <= parts*(2*max_iter*wmax + S)             for EVERY part
                 // the imbalance is `mj-imbalance@subnormal-ulp-grid` (known); anything beyond it
                 // (e.g. a slab that is not split at all), any other unit (1e-310, 2^-1040) and
                 // any weight above 2^10 ulps is an ordinary `mj-imbalance@subnormal`: the unchanged
@@ -1363,8 +1363,8 @@ fn op_mjs(ctx: &mut Ctx, op: &str, it: &mut std::str::SplitWhitespace) -> Option
                                         loads[i] += ws[p] as i128;
                                     }
                                 }
-                                let bound = parts as i128 * (2 * (maxiter as i128 + 1) * wmax + sp + 1);
-                                loads.iter().all(|&l| 2 * (parts as i128 * l - total).abs() < bound)
+                                let bound = parts as i128 * (2 * maxiter as i128 * wmax + sp);
+                                loads.iter().all(|&l| 2 * (parts as i128 * l - total).abs() <= bound)
                             }
                             None => false,
                         },
